@@ -1,8 +1,164 @@
 import Flatland.JsonUtil
-open Lean Flatland.J
+import Flatland.C15
+import Flatland.Spec.C15
+open Lean
+open Flatland.J hiding Str
 namespace Flatland.Run.C15
+open Flatland.C16 Flatland.C15
 
-/-- JSON case in, JSON observation out (stub until the model of C15 is written). -/
-def run (_j : Json) : Except String Json := .error "model runner for C15 not implemented yet"
+/-! JSON glue for C15 (not part of any theorem). -/
+
+def parseVal (j : Json) : Except String Val :=
+  match j with
+  | .null => pure .none
+  | .str s => pure (.str s.toList)
+  | .bool b => pure (.bool b)
+  | .num _ => do return .int (← j.getInt?)
+  | _ => do return .elem (← cfld j "elem")
+
+def valJson : Val → Json
+  | .none => Json.null
+  | .str s => ofChars s
+  | .int i => ofInt i
+  | .bool b => Json.bool b
+  | .elem u => obj [("elem", ofChars u)]
+
+def valD (j : Json) (k : String) : Except String Val := parseVal (fldD j k Json.null)
+def strsD (j : Json) (k : String) : Except String (List Str) := do
+  (← arr (fldD j k (Json.arr #[]))).mapM chars
+def boolD (j : Json) (k : String) (d : Bool) : Except String Bool := bool (fldD j k (Json.bool d))
+def intD (j : Json) (k : String) (d : Int) : Except String Int := int (fldD j k (ofInt d))
+
+def parseField (j : Json) : Except String (Option FieldView) := do
+  if isNull j then return none
+  return some { value := ← valD j "value", u := ← cfld j "u", label := ← valD j "label" }
+
+def parseRaw (j : Json) : Except String RawView := do
+  if isNull j then return .unset
+  match (← sfld j "t") with
+  | "unset" => return .unset
+  | "none" => return .none
+  | "pairs" => return .pairs (← strsD j "keys") (← boolD j "non_text" false)
+  | "notIterable" => return .notIterable
+  | "badPairs" => return .badPairs
+  | t => throw s!"bad raw {t}"
+
+def parsePart (j : Json) : Except String PartVal :=
+  match j with
+  | .null => pure .none
+  | .str s => pure (.str s.toList)
+  | _ => pure .raises
+
+def parseView (j : Json) : Except String View := do
+  let fields ← (← arr (fldD j "fields" (Json.arr #[]))).mapM parseField
+  let sibs ← (← arr (fldD j "siblings" (Json.arr #[]))).mapM (fun p => do
+    match (← arr p) with
+    | [v, u] => return ((← parseVal v), (← chars u))
+    | _ => throw "bad sibling")
+  let optStrs (k : String) : Except String (Option (List Str)) := do
+    let x := fldD j k Json.null
+    if isNull x then return none else return some (← (← arr x).mapM chars)
+  let http ← do
+    let x := fldD j "http_parts" Json.null
+    if isNull x then pure none else pure (some (← (← arr x).mapM parsePart))
+  let canon ← do
+    let x := fldD j "canon" Json.null
+    if isNull x then pure none else pure (some (← valD x "v"))
+  return {
+    value := ← valD j "value", u := ← chars (fldD j "u" (Json.str "")),
+    label := ← valD j "label", name := ← valD j "name",
+    isSequence := ← boolD j "is_seq" false,
+    valueLen := ← optOf nat (fldD j "value_len" Json.null),
+    childLabel := ← valD j "child_label",
+    fields := fields,
+    hasParent := ← boolD j "has_parent" false,
+    containerLabel := ← valD j "container_label",
+    siblings := sibs,
+    pos := ← optOf nat (fldD j "pos" Json.null),
+    raw := ← parseRaw (fldD j "raw" Json.null),
+    schemaKeys := ← strsD j "schema_keys",
+    idna := ← optOf chars (fldD j "idna" Json.null),
+    urlParts := ← optStrs "url_parts",
+    httpParts := http,
+    canon := canon }
+
+def parseRules (j : Json) : Except String (List (Str × PartRule)) := do
+  (← arr j).mapM (fun p => do
+    match (← arr p) with
+    | [k, r] =>
+      let rule ← (match r with
+        | .bool true => pure PartRule.always
+        | _ => do return PartRule.oneOf (← (← arr r).mapM chars))
+      return ((← chars k), rule)
+    | _ => throw "bad rule")
+
+def parseV (j : Json) : Except String V := do
+  match (← sfld j "cls") with
+  | "Present" => return .present
+  | "IsTrue" => return .isTrue
+  | "IsFalse" => return .isFalse
+  | "Converted" => return .converted
+  | "ValueIn" => return .valueIn (← (← afld j "valid_options").mapM parseVal)
+  | "ShorterThan" => return .shorterThan (← ifld j "maxlength")
+  | "LongerThan" => return .longerThan (← ifld j "minlength")
+  | "LengthBetween" => return .lengthBetween (← ifld j "minlength") (← ifld j "maxlength")
+  | "ValueLessThan" => return .valueLessThan (← valD j "boundary")
+  | "ValueAtMost" => return .valueAtMost (← valD j "maximum")
+  | "ValueGreaterThan" => return .valueGreaterThan (← valD j "boundary")
+  | "ValueAtLeast" => return .valueAtLeast (← valD j "minimum")
+  | "ValueBetween" =>
+    return .valueBetween (← valD j "minimum") (← valD j "maximum") (← boolD j "inclusive" true)
+  | "MapEqual" => return .mapEqual .element
+  | "ValuesEqual" => return .mapEqual .value
+  | "UnisEqual" => return .mapEqual .u
+  | "NotDuplicated" => return .notDuplicated
+  | "HasAtLeast" => return .hasAtLeast (← intD j "minimum" 1)
+  | "HasAtMost" => return .hasAtMost (← intD j "maximum" 1)
+  | "HasBetween" => return .hasBetween (← intD j "minimum" 1) (← intD j "maximum" 1)
+  | "SetWithKnownFields" => return .setWithKnownFields
+  | "SetWithAllFields" => return .setWithAllFields
+  | "Luhn10" => return .luhn10
+  | "IsEmail" => return .isEmail (← boolD j "non_local" true)
+  | "URLValidator" =>
+    let schemes := fldD j "allowed_schemes" Json.null
+    let s ← if isNull schemes then pure none else do
+      let l ← (← arr schemes).mapM chars
+      pure (if l == [['*']] then none else some l)          -- `allowed_schemes != ('*',)`
+    let parts := fldD j "allowed_parts" Json.null
+    let p ← if isNull parts then pure urlPartNames else (← arr parts).mapM chars
+    return .urlValidator s p
+  | "HTTPURLValidator" =>
+    let defReq : List (Str × PartRule) :=
+      [("scheme".toList, .oneOf ["http".toList, "https".toList]), ("hostname".toList, .always)]
+    let defForb : List (Str × PartRule) :=
+      [("username".toList, .always), ("password".toList, .always)]
+    let r := fldD j "required_parts" Json.null
+    let f := fldD j "forbidden_parts" Json.null
+    return .httpURL (← if isNull r then pure defReq else parseRules r)
+                    (← if isNull f then pure defForb else parseRules f)
+  | "URLCanonicalizer" =>
+    let d := fldD j "discard_parts" Json.null
+    return .urlCanonicalizer (← if isNull d then pure ["fragment".toList] else (← arr d).mapM chars)
+  | c => throw s!"unknown validator class {c}"
+
+def run (j : Json) : Except String Json := do
+  let v ← parseV (← fld j "v")
+  let e ← parseView (← fld j "view")
+  let pre ← (← arr (fldD j "pre_errors" (Json.arr #[]))).mapM chars
+  let container ← boolD (← fld j "view") "container" false
+  let res := Flatland.C15.run v e pre
+  let spec := Spec.documented v e
+  let agrees : Bool := match res, spec with
+    | .ok o, some b => o.verdict == b
+    | _, _ => true
+  match res with
+  | .error r =>
+    return obj [("raise", Json.str r.name), ("verdict", Json.null), ("errors", ofList ofChars pre),
+                ("value_after", Json.null), ("spec_agrees", Json.bool agrees)]
+  | .ok o =>
+    return obj [("raise", Json.null), ("verdict", Json.bool o.verdict),
+                ("errors", ofList ofChars o.errors),
+                ("value_after", if container then Json.str "<unchanged>" else valJson o.value),
+                ("spec_agrees", Json.bool agrees)]
 
 end Flatland.Run.C15
